@@ -432,11 +432,11 @@ Fixpoint layers_closed (c : mcfg) (ls : list (list mstate)) : bool :=
 
 Definition FUEL : nat := 400.
 
-Definition explore_ok (c : mcfg) : bool :=
-  match layers c FUEL [forget minit] with
-  | None => false
-  | Some ls => layers_closed c ls
-  end.
+Definition check_layers (c : mcfg) (o : option (list (list mstate))) : bool :=
+  match o with None => false | Some ls => layers_closed c ls end.
+
+Definition explore_fuel (fuel : nat) (c : mcfg) : bool := check_layers c (layers c fuel [forget minit]).
+Notation explore_ok := (explore_fuel FUEL).
 
 (* number of states and layers, for the evidence *)
 Definition explore_size (c : mcfg) : Z * Z :=
@@ -518,7 +518,8 @@ Fixpoint replay (c : mcfg) (s : mstate) (sched : list Z) : list (Z * list Z * li
 Definition replay_obs (c : mcfg) (sched : list Z) :=
   let s := fold_left (fun s z => mstep c s (label_of_code z)) sched minit in
   (replay c minit sched, (d_out (m_i s), d_reason (m_i s), d_out (m_r s), d_reason (m_r s)),
-   Z.b2z (quiescent s)).
+   (* nothing left to deliver (a prompt may still be open: the user's business) *)
+   Z.b2z (is_nil (q_i s) && is_nil (q_r s))).
 
 (* ------------------------------------------------------------------ abstraction of a concrete run *)
 (* first bit (0..19) on which two passkeys differ; 20 when they agree on all of them *)
